@@ -4,7 +4,7 @@ import os
 
 from vf import core
 
-PROBES = ['EpochConvention', 'EpochGap', 'HWFallback', 'ExpandLagging']
+PROBES = ['EpochConvention', 'EpochGap', 'HWFallback', 'ExpandLagging', 'HWFallbackReported']
 # defects repaired in /repo: the probe must be unreachable in the model (thorough tier) and the
 # stimulus that used to fail is replayed on the real code in every run (spec/scenarios)
 FIXED_PROBES = ['StaleIsrOffset']
@@ -64,8 +64,44 @@ def features(beh):
     again = set()
     prev = 'Init'
     prev2 = '-'
+    fell = {}
     for idx, st in enumerate(beh[1:]):
         a = st['last']
+        # log reconciliation through the HW fallback (the leader epoch offset requests go unanswered): who
+        # reconciles, with which HW (-1: the whole log goes), how much it holds above its HW, whether that
+        # tail is an orphan (not what the new leader holds there), whether a leader is serving meanwhile
+        if a['a'] in ('Restart', 'ApplyMeta', 'Elect') and not a.get('reach', True):
+            try:
+                pre = beh[idx]['body']
+                lg0, hw0 = core.tlaval.state_var(pre, 'log'), core.tlaval.state_var(pre, 'hw')
+                up0, role0 = core.tlaval.state_var(pre, 'up'), core.tlaval.state_var(pre, 'role')
+                m0 = core.tlaval.state_var(pre, 'meta')
+                if a['a'] == 'Elect':
+                    ld, who = a['n'], [x for x in up0 if up0[x] and x != a['n']]
+                else:
+                    ld, who = m0['leader'], [a.get('r', a.get('f'))]
+                for x in who:
+                    if x == ld:
+                        continue
+                    tail = lg0[x][hw0[x] + 1:]
+                    orphan = tail != lg0[ld][hw0[x] + 1:hw0[x] + 1 + len(tail)]
+                    serving = bool(up0[ld] and role0[ld] == 'leader')
+                    feats.add(('x', 'fallback', a['a'], hw0[x] < 0, min(len(tail), 2), orphan, serving,
+                               x in m0['isr']['__set__']))
+                    fell[x] = (hw0[x] < 0, orphan)
+            except Exception:
+                pass
+        elif a['a'] in ('Fetch', 'Deliver') and a.get('f') in fell:
+            # ... and the first time afterwards that replica adopts a HW from the leader (what it kept is
+            # below a HW from then on)
+            try:
+                f = a['f']
+                if core.tlaval.state_var(st['body'], 'hw')[f] > core.tlaval.state_var(beh[idx]['body'], 'hw')[f]:
+                    feats.add(('x', 'hw-after-fallback', a['a']) + fell.pop(f))
+            except Exception:
+                pass
+        elif a['a'] in ('Crash', 'FetchLost') and a.get('r', a.get('f')) in fell:
+            fell.pop(a.get('r', a.get('f')), None)
         try:
             state = {k: core.tlaval.state_var(st['body'], k) for k in ('meta', 'up', 'pend', 'taint', 'role', 'isrOff', 'log', 'inflight', 'lagging')}
         except Exception:
@@ -352,7 +388,7 @@ def run(rep, tier, seed, replay, prop, names, relevant, rule, rf1=False, mc_quic
         rep.cov['samples'] = behaviours[:1]
         rep.cov['evaluations'] = len(behaviours)
         return
-    designs = [mc_quick, 'MC_Replication_late.cfg'] if tier == 'quick' else ['MC_Replication_late_thorough.cfg', 'MC_Replication_thorough.cfg', 'MC_Replication_alive.cfg',
+    designs = [mc_quick, 'MC_Replication_late.cfg', 'MC_Replication_fallback_quick.cfg'] if tier == 'quick' else ['MC_Replication_late_thorough.cfg', 'MC_Replication_thorough.cfg', 'MC_Replication_alive.cfg',
                                                    'MC_Replication_acks.cfg', 'MC_Replication_fallback.cfg']
     for cfg in designs:
         res = design_check('MC_Replication.tla', cfg, timeout=3 * 3600, coverage=False, heap='4g' if tier == 'quick' else None)
@@ -380,10 +416,13 @@ def run(rep, tier, seed, replay, prop, names, relevant, rule, rf1=False, mc_quic
     pool += core.tlc_simulate('MC_ReplicationFam.tla', 'Sim_ReplicationFam.cfg', 700 if tier == 'quick' else 7000, 18, seed + 5, timeout=2400)
     # + "the in-sync set changes while records are in flight", "a replication response is delivered late" and
     # "a replica that led and then followed leads again"
-    for i, fam in enumerate(('isr', 'late', 'again')):
-        pool += core.tlc_simulate('MC_ReplicationFam2.tla', 'Sim_ReplicationFam2_%s.cfg' % fam, 500 if tier == 'quick' else 2000,
+    # + (round 5) "a replica with an un-replicated tail rejoins while its leader epoch offset requests go
+    # unanswered (HW fallback; HW -1 = the log is emptied)"
+    for i, fam in enumerate(('isr', 'late', 'again', 'fallback')):
+        pool += core.tlc_simulate('MC_ReplicationFam2.tla', 'Sim_ReplicationFam2_%s.cfg' % fam,
+                                  (300 if fam == 'fallback' else 500) if tier == 'quick' else 2000,
                                   18, seed + 7 + i, timeout=2400)
-    sims, nfeat = select(pool, 150 if tier == 'quick' else 1500, rng)
+    sims, nfeat = select(pool, 165 if tier == 'quick' else 1500, rng)
     rep.cov['selection'] = {'pool': len(pool), 'selected': len(sims), 'features_covered': nfeat}
     behaviours += [to_stimulus(b, i + 1) for i, b in enumerate(sims) if len(b) > 1]
     with core.scratch(prop.lower()) as d:
